@@ -29,7 +29,7 @@ QS = [2, 3, 4, 5, 8, 10, 16, 32, 64]
 BOUNDS = {
     "quick": "(a),(b): number parts all reals, numerators/denominators all integers with |.| <= 10^9 (denominators != 0), every operator; (c): number all reals, fractional "
              "part p/q with q in %s and 0 <= p < q (seeded 3 per unit pair), unit pairs: every affine unit <-> base plus 150 seeded pairs, validity with symbolic limits; "
-             "(d) auxiliary concrete grid of 294 format/parse and 150 CreateFromFloat cases (NOT solver-decided)" % QS,
+             "(d) auxiliary concrete grid of 294 format/parse, 150 CreateFromFloat and 216 Fraction-with-float-operand cases (NOT solver-decided)" % QS,
     "thorough": "same with 8000 seeded unit pairs in (c) and every p/q",
 }
 ASSUMPTIONS = ["fractions.Fraction stands in as SymFrac: value term + fresh integer numerator/denominator with D>0 and N = value*D (integrality of the reduced form dropped), so a "
@@ -182,6 +182,26 @@ def run(cfg, V):
                 bad.append(("CreateFromFloat", v, str(fv)))
         except Exception as e:  # noqa
             bad.append(("CreateFromFloat", v, type(e).__name__))
+    # a plain float operand is read as the short decimal it prints as (0.1 -> 1/10) by EVERY operator alike
+    import fractions
+    import operator
+
+    for f in (0.1, 0.2, 0.3, 1.1, 12.35, 0.5, -0.7, 2.0, 3):
+        exact_f = fractions.Fraction(repr(f))
+        for (p, q) in ((1, 3), (1, 2), (-5, 7)):
+            for name, fn in (("add", operator.add), ("sub", operator.sub), ("mul", operator.mul), ("truediv", operator.truediv)):
+                for order in (0, 1):
+                    try:
+                        got = fn(Fraction(p, q), f) if order == 0 else fn(f, Fraction(p, q))
+                        want = fn(fractions.Fraction(p, q), exact_f) if order == 0 else fn(exact_f, fractions.Fraction(p, q))
+                        gx = got.x if hasattr(got, "x") else got
+                        if fractions.Fraction(gx) != want or not (got == Fraction(want.numerator, want.denominator)):
+                            bad.append(("fraction-op-float", name, order, p, q, f, str(got), str(want)))
+                    except Exception as e:  # noqa
+                        bad.append(("fraction-op-float", name, order, p, q, f, type(e).__name__))
+            for name, fn in (("lt", operator.lt), ("le", operator.le), ("eq", operator.eq), ("gt", operator.gt)):
+                if fn(Fraction(p, q), f) != fn(fractions.Fraction(p, q), exact_f):
+                    bad.append(("fraction-cmp-float", name, p, q, f))
     return {"aux_bad": bad}
 
 
@@ -240,7 +260,7 @@ def props(cfg, T, obs):
                 ("the source keeps its unit and its fraction", bool(obs["unit_kept"]) and bool(obs["src_untouched"]))]
     if k == "fs_valid":
         return [("a FractionScalar validates exactly like a Scalar holding float(value)", bool(obs["fs_valid"]) == bool(obs["s_valid"]))]
-    return [("auxiliary concrete grid: format->parse and CreateFromFloat preserve the amount (not solver-decided)", obs["aux_bad"] == [])]
+    return [("auxiliary concrete grid: format->parse, CreateFromFloat and float operands of Fraction operators preserve the amount (not solver-decided)", obs["aux_bad"] == [])]
 
 
 def finding_key(cfg, name):
